@@ -640,6 +640,85 @@ pub fn synth_vp8l(rng: &mut Rng, w: u32, h: u32, want: Option<&'static str>) -> 
     (bytes, viol)
 }
 
+/// A VALID stream whose header phase is long (several buffer refills of the 4096-byte bit buffer): one or two
+/// predictor / colour transforms with 4x4 blocks on an image of 256..511 pixels a side (sub-images of up to 128x128
+/// entropy-coded pixels with random prefix codes of mixed lengths), then one plain prefix-code group.  Candidates are
+/// drawn until a valid stream is at least `min_len` bytes long (or 60 tries).  Returns (lossless stream without the
+/// 5-byte VP8L header, width, height).
+pub fn long_header_stream(rng: &mut Rng, min_len: usize) -> (Vec<u8>, u32, u32) {
+    let mut best: (Vec<u8>, u32, u32) = (vec![], 1, 1);
+    for _ in 0..60 {
+        let (w, h) = (256 + rng.below(256) as u32, 256 + rng.below(256) as u32);
+        let mut bw = BitWriter::new();
+        let mut viol = Violations::default();
+        let seq: &[u32] = *rng.pick(&[&[0u32][..], &[1][..], &[0, 1][..], &[1, 0][..]]);
+        for &t in seq {
+            bw.bit(true);
+            bw.bits(t, 2);
+            bw.bits(0, 3);
+            let (sw, sh) = (div_ceil(w, 4), div_ceil(h, 4));
+            write_entropy_image(&mut bw, rng, sw, sw * sh, if t == 0 { 13 } else { 255 }, &mut viol, None);
+        }
+        bw.bit(false);
+        bw.bit(false); // no colour cache
+        bw.bit(false); // no meta prefix image
+        for (k, alphabet) in [256 + 24, 256, 256, 256, 40].into_iter().enumerate() {
+            let spec = pick_code(rng, alphabet, &[], k != 0);
+            write_code(&mut bw, rng, &spec, alphabet, &mut viol, None);
+        }
+        if !viol.what.is_empty() {
+            continue; // the random writer planted something by accident (it says so): not a valid stream
+        }
+        let mut bytes = bw.bytes;
+        bytes.extend(rng.bytes(4));
+        if bytes.len() > best.0.len() {
+            best = (bytes, w, h);
+        }
+        if best.0.len() >= min_len {
+            break;
+        }
+    }
+    best
+}
+
+/// A VALID 1x1 VP8L payload whose one-pixel meta prefix image names group `groups - 1`, followed by that many groups
+/// of five NORMAL prefix codes with many symbols and mixed code lengths (1..15): kilobytes of code-length-coded code
+/// definitions, so that refills of the bit buffer fall inside symbols of the code-length codes and inside the
+/// definitions' extra bits.
+pub fn many_normal_groups(rng: &mut Rng, groups: u32) -> Vec<u8> {
+    assert!((1..=65536).contains(&groups));
+    let idx = groups - 1;
+    let mut bw = BitWriter::new();
+    let mut viol = Violations::default();
+    bw.bits(0x2f, 8);
+    bw.bits(0, 14);
+    bw.bits(0, 14);
+    bw.bit(false);
+    bw.bits(0, 3);
+    bw.bit(false); // no transform
+    bw.bit(false); // no colour cache
+    bw.bit(true); // meta prefix codes
+    bw.bits(0, 3); // block size 4: a 1x1 entropy image
+    bw.bit(false); // entropy image: no colour cache
+    write_code(&mut bw, rng, &CodeSpec::Simple1((idx & 0xff) as u16, true), 280, &mut viol, None);
+    write_code(&mut bw, rng, &CodeSpec::Simple1((idx >> 8) as u16, true), 256, &mut viol, None);
+    for alphabet in [256, 256, 40] {
+        write_code(&mut bw, rng, &CodeSpec::Simple1(0, false), alphabet, &mut viol, None);
+    }
+    for _ in 0..groups {
+        for alphabet in [256 + 24usize, 256, 256, 256, 40] {
+            let nsyms = (2 + rng.below(alphabet as u64 - 2) as usize).min(alphabet);
+            let lens = complete_lengths(rng, alphabet, nsyms, 15, &mut |r| r.below(alphabet as u64) as usize);
+            let use_max = rng.chance(1, 2);
+            write_code(&mut bw, rng, &CodeSpec::Normal(lens, use_max), alphabet, &mut viol, None);
+        }
+    }
+    assert!(viol.what.is_empty(), "{:?}", viol.what);
+    let mut b = bw.bytes;
+    b.extend_from_slice(&[0; 4]);
+    b
+}
+
 /// the stream after the 5-byte header (also the body of a lossless ALPH chunk)
 pub fn write_lossless_stream(bw: &mut BitWriter, rng: &mut Rng, w: u32, h: u32, want: Option<&'static str>, viol: &mut Violations) {
     let mut order: Vec<u32> = vec![0, 1, 2, 3];
